@@ -899,17 +899,18 @@ class RTDCBase(abc.ABC):
                     b_cls = bc[bdict["format"]]
                     # Try absolute path
                     bna = b_cls(pp, **kwargs)
-                    if bna.verify_basin():
+                    if self._basin_is_usable(bna):
                         basins.append(bna)
                         break
-                    # Try relative path
-                    this_path = pathlib.Path(self.path)
-                    if this_path.exists():
-                        # Insert relative path
-                        bnr = b_cls(this_path.parent / pp, **kwargs)
-                        if bnr.verify_basin():
-                            basins.append(bnr)
-                            break
+                    # Try relative path (if this dataset is a file on disk)
+                    if isinstance(self.path, (str, pathlib.Path)):
+                        this_path = pathlib.Path(self.path)
+                        if this_path.exists():
+                            # Insert relative path
+                            bnr = b_cls(this_path.parent / pp, **kwargs)
+                            if self._basin_is_usable(bnr):
+                                basins.append(bnr)
+                                break
             elif bdict["type"] == "remote":
                 for url in bdict["urls"]:
                     # Instantiate the proper basin class
@@ -926,6 +927,15 @@ class RTDCBase(abc.ABC):
                 warnings.warn(
                     f"Encountered unsupported basin type '{bdict['type']}'!")
         return basins
+
+    @staticmethod
+    def _basin_is_usable(bn):
+        """Verify a file-based basin; an unreadable basin is not usable"""
+        try:
+            return bn.verify_basin()
+        except OSError:
+            # e.g. a corrupt file or a directory at the basin location
+            return False
 
     def get_measurement_identifier(self):
         """Return a unique measurement identifier
